@@ -374,7 +374,7 @@ def run(ck):
         dry = walk.Scenario(base + 1, [], dict(dpd=600, lifetime=3600), handshake=name != 'initial+child')
         steps = sum(1 for _ in history_steps(dry, HISTORIES[name]))
         ck.seen('partition.history_steps', (name, steps))
-        for dpd, dt in ((6, 1.0), (14, 2.5)) if not thorough else ((6, 1.0), (14, 2.5), (6, 0.5), (30, 3.0)):
+        for dpd, dt in ((6, 1.0), (14, 2.5)) if not thorough else ((6, 1.0), (14, 2.5), (6, 0.5), (30, 3.0), (9, 0.25), (20, 1.5), (45, 4.0), (3, 1.0)):
             for k in range(1, steps + 1):
                 n += 1
                 if ck.mine(n):
